@@ -1,0 +1,54 @@
+//go:build verif
+
+// Contracts for package mergeplan, checked by /verif/bin/govc (comment-only file).
+package mergeplan
+
+//@ fileprops C19
+
+// A segment's sizes are functions of the segment (the planner may ask any number of times).
+//@ spec fn liveSize(t ref, r ref) int64
+//@ spec fn fullSize(t ref, r ref) int64
+//@ func Segment.LiveSize(recv) (n)
+//@   interface
+//@   pure
+//@   ensures n == liveSize(tag(recv), iref(recv))
+//@ func Segment.FullSize(recv) (n)
+//@   interface
+//@   pure
+//@   ensures n == fullSize(tag(recv), iref(recv))
+//@ func Segment.ID(recv) (n)
+//@   interface
+//@   pure
+
+// lsum(at, ar, o, k): sum of the live sizes of the first k segments of a slice (at/ar: its tag and payload arrays)
+//@ spec fn rec lsum(at map[int]ref, ar map[int]ref, o int, k int) int = ite(k <= 0, 0, lsum(at, ar, o, k - 1) + liveSize(at[o + k - 1], ar[o + k - 1]))
+
+//@ func Options.RaiseToFloorSegmentSize
+//@   pure
+//@   ensures result >= s && result >= o.FloorSegmentSize && (result == s || result == o.FloorSegmentSize)
+
+// only segments below half of the maximum size are eligible
+//@ func findLiveSizesAndEligibles
+//@   nopanic nonil
+//@   pure
+//@   requires o != nil
+//@   ensures [eligible-below-half] forall k int :: 0 <= k && k < len(eligibles) ==> liveSize(elemsk(eligibles, 0)[off(eligibles) + k], elemsk(eligibles, 1)[off(eligibles) + k]) < o.MaxSegmentSize / 2
+//@   ensures len(eligibles) <= len(segments)
+//@   loop 1
+//@     invariant rangeindex < len(segments) && len(eligibles) <= rangeindex + 1
+//@     invariant isnil(eligibles) || fresh(base(eligibles))
+//@     invariant forall k int :: 0 <= k && k < len(eligibles) ==> liveSize(elemsk(eligibles, 0)[off(eligibles) + k], elemsk(eligibles, 1)[off(eligibles) + k]) < o.MaxSegmentSize / 2
+
+//@ func removeSegments
+//@   nopanic nonil
+//@   pure
+//@   infer
+//@   requires len(toRemove) <= len(segments)
+//@   ensures len(result) <= len(segments)
+//@   loop 1
+//@     invariant rangeindex < len(segments) && len(rv) <= rangeindex + 1
+
+//@ func CalcBudget
+//@   nopanic nonil
+//@   pure
+//@   requires o != nil
